@@ -70,8 +70,15 @@ def all_builder_methods():
 _args_out = []
 
 
+_args_pre = {}
+
+
 def A(x):
+    """register an argument object; its state *before* the library sees it is recorded, so that a change made by
+    the very call it is passed to is noticed"""
     _args_out.append(x)
+    d = odict(x)
+    _args_pre[id(x)] = (x, attr_fps(x) if d is not None else None, dict(d) if d is not None else None)
     return x
 
 
@@ -86,9 +93,9 @@ def sub_():
 
 def used_sub_():
     v = Table("v")
-    s = A(Query.from_(v).select(v.id))
+    s = Query.from_(v).select(v.id)
     A(Query.from_(s).select(s.id))  # the other user of s: a live object whose rendering must not change
-    return s
+    return A(s)  # registered after it got its alias from the other query: from now on it is an aliased argument
 
 
 QB_OPS = {
@@ -439,6 +446,7 @@ def run_case(case):
             nodes.append(None)
             continue
         del _args_out[:]
+        _args_pre.clear()
         err = None
         try:
             x = ops[key](parent)
@@ -448,6 +456,33 @@ def run_case(case):
         args = list(_args_out)
         nodes.append(x)
         rendered = False
+        # arguments of this very call: only an un-aliased subquery / self-joined table may gain an alias
+        for a in args:
+            pre = _args_pre.get(id(a))
+            if pre is None or pre[1] is None:
+                continue
+            now = attr_fps(a)
+            if now == pre[1]:
+                continue
+            ch = [k for k in sorted(set(now) | set(pre[1])) if now.get(k) != pre[1].get(k)]
+            if ch == ["alias"] and pre[2].get("alias") is None and isinstance(a, (Q.QueryBuilder, Q._SetOperation, Table)):
+                continue  # the permitted side effect
+            d = odict(a)
+            cur = dict(d)
+            o_now = obs(a)
+            d.clear()
+            d.update(pre[2])
+            o_then = obs(a)
+            d.clear()
+            d.update(cur)
+            rendered = True
+            if o_now != o_then:
+                flagged = True
+                res.violate("C01|%s|argument-of-call|%s" % (_sig_class(parent, key), ",".join(ch)),
+                            "%s call %s changed an argument object that was not an un-aliased subquery/self-joined table (attrs %s)" % (
+                                case["fam"], key, ch),
+                            fam=case["fam"], seed=case["seed"], ops=keys, shape=shape, step=i, diff=obs_diff(o_then, o_now))
+        _args_pre.clear()
         sigcls = _sig_class(parent, key)
         if (x is not None and x is parent and getattr(parent, "immutable", True)
                 and key.split(":")[0] in builder_methods(type(parent))):
